@@ -1299,12 +1299,66 @@ lys_compile_pattern_xmlschema_mce(char esc)
     return NULL;
 }
 
+/**
+ * @brief Replace negated Unicode block escapes "\\P{IsX}" outside character classes with "[^\\p{IsX}]"
+ * so that they are substituted with character ranges as well.
+ *
+ * @param[in] ctx libyang context.
+ * @param[in] pattern Original pattern.
+ * @param[out] result Allocated pattern with the escapes replaced.
+ * @return LY_ERR value.
+ */
+static LY_ERR
+lys_compile_pattern_negblocks_xmlschema2perl(const struct ly_ctx *ctx, const char *pattern, char **result)
+{
+    size_t idx = 0, brack = 0, count = 0;
+    const char *ptr;
+    char *res;
+    ly_bool escaped = 0, pending = 0;
+
+    for (ptr = pattern; (ptr = strstr(ptr, "\\P{Is")); ++ptr) {
+        ++count;
+    }
+    res = malloc(strlen(pattern) + 3 * count + 1);
+    LY_CHECK_ERR_RET(!res, LOGMEM(ctx), LY_EMEM);
+
+    for (ptr = pattern; ptr[0]; ++ptr) {
+        if (escaped) {
+            escaped = 0;
+            if (!brack && !strncmp(ptr, "P{Is", 4)) {
+                /* overwrite the copied backslash */
+                memcpy(res + idx - 1, "[^\\p", 4);
+                idx += 3;
+                pending = 1;
+                continue;
+            }
+        } else if (ptr[0] == '\\') {
+            escaped = 1;
+        } else if (ptr[0] == '[') {
+            ++brack;
+        } else if ((ptr[0] == ']') && brack) {
+            --brack;
+        } else if ((ptr[0] == '}') && pending) {
+            /* end of the block name */
+            res[idx++] = '}';
+            res[idx++] = ']';
+            pending = 0;
+            continue;
+        }
+        res[idx++] = ptr[0];
+    }
+    res[idx] = '\0';
+
+    *result = res;
+    return LY_SUCCESS;
+}
+
 LY_ERR
 lys_compile_type_pattern_check(const struct ly_ctx *ctx, const char *pattern, pcre2_code **code)
 {
     size_t idx, size, brack, len, cls_start = 0;
     uint64_t sub_mask = 0;
-    char *perl_regex;
+    char *perl_regex, *pattern2;
     int err_code, compile_opts;
     const char *orig_ptr, *members;
     PCRE2_SIZE err_offset;
@@ -1316,8 +1370,11 @@ lys_compile_type_pattern_check(const struct ly_ctx *ctx, const char *pattern, pc
     /* adjust the expression to a Perl equivalent
      * http://www.w3.org/TR/2004/REC-xmlschema-2-20041028/#regexs */
 
+    /* negated Unicode character blocks */
+    LY_CHECK_RET(lys_compile_pattern_negblocks_xmlschema2perl(ctx, pattern, &pattern2));
+
     /* allocate space for the transformed pattern */
-    size = strlen(pattern) + 1;
+    size = strlen(pattern2) + 1;
     compile_opts = PCRE2_UTF | PCRE2_UCP | PCRE2_ANCHORED | PCRE2_DOLLAR_ENDONLY | PCRE2_NO_AUTO_CAPTURE;
 #ifdef PCRE2_ENDANCHORED
     compile_opts |= PCRE2_ENDANCHORED;
@@ -1326,14 +1383,14 @@ lys_compile_type_pattern_check(const struct ly_ctx *ctx, const char *pattern, pc
     size++;
 #endif
     perl_regex = malloc(size);
-    LY_CHECK_ERR_RET(!perl_regex, LOGMEM(ctx), LY_EMEM);
+    LY_CHECK_ERR_RET(!perl_regex, LOGMEM(ctx); free(pattern2), LY_EMEM);
     perl_regex[0] = '\0';
 
     /* we need to replace all "$" and "^" (that are not in "[]") with "\$" and "\^" */
     brack = 0;
     idx = 0;
     escaped = 0;
-    orig_ptr = pattern;
+    orig_ptr = pattern2;
     while (orig_ptr[0]) {
         if (escaped && (members = lys_compile_pattern_xmlschema_mce(orig_ptr[0]))) {
             /* XML Schema multi-character escape, replace it (the backslash was already copied) with a character class
@@ -1341,7 +1398,7 @@ lys_compile_type_pattern_check(const struct ly_ctx *ctx, const char *pattern, pc
             len = strlen(members);
             size += len;
             perl_regex = ly_realloc(perl_regex, size);
-            LY_CHECK_ERR_RET(!perl_regex, LOGMEM(ctx), LY_EMEM);
+            LY_CHECK_ERR_RET(!perl_regex, LOGMEM(ctx); free(pattern2), LY_EMEM);
 
             --idx;
             if (!brack) {
@@ -1366,7 +1423,7 @@ lys_compile_type_pattern_check(const struct ly_ctx *ctx, const char *pattern, pc
                 /* make space for the extra character */
                 ++size;
                 perl_regex = ly_realloc(perl_regex, size);
-                LY_CHECK_ERR_RET(!perl_regex, LOGMEM(ctx), LY_EMEM);
+                LY_CHECK_ERR_RET(!perl_regex, LOGMEM(ctx); free(pattern2), LY_EMEM);
 
                 /* print escape slash */
                 perl_regex[idx] = '\\';
@@ -1388,7 +1445,7 @@ lys_compile_type_pattern_check(const struct ly_ctx *ctx, const char *pattern, pc
                  * that is not (look-behind of fixed length 1) a character of S */
                 size += 9;
                 perl_regex = ly_realloc(perl_regex, size);
-                LY_CHECK_ERR_RET(!perl_regex, LOGMEM(ctx), LY_EMEM);
+                LY_CHECK_ERR_RET(!perl_regex, LOGMEM(ctx); free(pattern2), LY_EMEM);
 
                 if ((brack == 1) && !sub_wrapped) {
                     /* group the whole expression so that a quantifier applies to it */
@@ -1428,6 +1485,7 @@ lys_compile_type_pattern_check(const struct ly_ctx *ctx, const char *pattern, pc
                  * pcre2 match characters '[a]' literally but in YANG such pattern is not allowed.
                  */
                 LOGVAL(ctx, LY_VCODE_INREGEXP, pattern, orig_ptr, "character group doesn't begin with '['");
+                free(pattern2);
                 free(perl_regex);
                 return LY_EVALID;
             } else if (!escaped) {
@@ -1469,6 +1527,7 @@ lys_compile_type_pattern_check(const struct ly_ctx *ctx, const char *pattern, pc
     perl_regex[idx++] = '$';
 #endif
     perl_regex[idx] = '\0';
+    free(pattern2);
 
     /* transform character blocks */
     if ((r = lys_compile_pattern_chblocks_xmlschema2perl(ctx, pattern, &perl_regex))) {
